@@ -6,7 +6,11 @@ def E(cls, flavour, runs, budget_s=150, **kw):
     d.update(kw)
     return d
 
+ALL4 = ['build/plain/texelsim dtm all3 KQQvK KQRvK KQBvK KQNvK KRRvK', 'build/plain/texelsim dtm KRBvK KRNvK KBBvK KBNvK KNNvK', 'build/plain/texelsim dtm KQvKQ KQvKR KQvKB KQvKN KRvKR', 'build/plain/texelsim dtm KRvKB KRvKN KBvKB KBvKN KNvKN']
+
 PLANS = {
+    'C04': {'quick': [E('C04', 'plain', 1500, 100, run_wall_s=120, prep=ALL4), E('C04', 'asan', 60, 40, seed_offset=500000, run_wall_s=200)],
+            'thorough': [E('C04', 'plain', 30000, 7200, run_wall_s=600, tier=1, prep=ALL4), E('C04', 'asan', 1500, 1800, seed_offset=500000, run_wall_s=600)]},
     'C05': {'quick': [E('C05', 'plain', 1500, 90), E('C05', 'asan', 160, 45, seed_offset=500000, run_wall_s=120)],
             'thorough': [E('C05', 'plain', 100000, 3000), E('C05', 'asan', 10000, 1500, seed_offset=500000)]},
     'C10': {'quick': [E('C10', 'plain', 2500, 110)],
